@@ -154,7 +154,7 @@ def generate(model: Model):
     for c, m in own_methods(model, "_layer"):
         for a in (x for x in iter_body_nodes(m.node) if isinstance(x, ast.Assign) and isinstance(x.value, (ast.BinOp, ast.JoinedStr))):
             for sub in ast.walk(a.value):
-                if is_self_attr(sub, "_name") and "frame" in model.parameters(c) and n < MAX_PER_OPERATOR:
+                if is_self_attr(sub, "_name") and "frame" in model.parameters(c) and len(model.parameters(c)) > 1 and n < MAX_PER_OPERATOR:
                     yield "mutant", f"namespace-from-child:{c.name}:{ast.unparse(a.targets[0])}", "R09d", c.module.rel, _splice(c.module.source, sub, "self.frame._name")
                     n += 1
                     break
